@@ -1,6 +1,6 @@
 #!/bin/sh
 # re-evaluate every archived seed against the check of its own property (and extra checks given in meta) - slow
-for d in /verif/seeded/C*-[A-G]; do
+for d in /verif/seeded/C*-[A-H]; do
   name=$(basename $d); pid=${name%-*}
   extra=""
   case $name in C12-C) extra=",C11";; C12-G) extra=",C13";; esac
